@@ -114,7 +114,7 @@ func checkCursor(it age.IteratorLike[int], cur *cursor) string {
 // continuations up to the tier's length are enumerated; each sequence is
 // replayed on a fresh iterator of a fresh List.
 func RunC17Exhaustive(c *core.Ctx, idx int) {
-	length := core.Tiered(c.Tier, 4, 6)
+	length := core.Tiered(c.Tier, 4, 7)
 	// decode
 	size := 0
 	for ; size <= 4; size++ {
